@@ -248,12 +248,13 @@ theorem fits_iff (w s : Nat) (x : Lit) :
     simp [hlt]
 
 /-- sums and differences of two stored Numbers are exact at that scale (`n/10^s ± k/10^s = (n±k)/10^s`
-    with integer `n ± k`), and below DuckDB's maximum width they cannot overflow -/
+    with integer `n ± k`); where DuckDB widens the result (every width except 18 and 38) they cannot
+    overflow, and an overflow is an error, never a value with lost digits -/
 theorem add_sub_exact (maxW w : Nat) (a b : Int) (ha : fits w a = true) (hb : fits w b = true) :
     (∀ c, addDec maxW w a b = some c → c = a + b) ∧ (∀ c, subDec maxW w a b = some c → c = a - b) ∧
-    (w + 1 ≤ maxW → addDec maxW w a b = some (a + b) ∧ subDec maxW w a b = some (a - b)) ∧
-    (addDec maxW w a b = none → 10 ^ maxW ≤ (a + b).natAbs) ∧
-    (subDec maxW w a b = none → 10 ^ maxW ≤ (a - b).natAbs) := by
+    (w ≠ 18 → w + 1 ≤ maxW → addDec maxW w a b = some (a + b) ∧ subDec maxW w a b = some (a - b)) ∧
+    (addDec maxW w a b = none → 10 ^ (resWidth maxW w) ≤ (a + b).natAbs) ∧
+    (subDec maxW w a b = none → 10 ^ (resWidth maxW w) ≤ (a - b).natAbs) := by
   have ha' : a.natAbs < 10 ^ w := by simpa [fits] using ha
   have hb' : b.natAbs < 10 ^ w := by simpa [fits] using hb
   have hpow : 10 ^ (w + 1) = 10 * 10 ^ w := by rw [Nat.pow_succ, Nat.mul_comm]
@@ -262,27 +263,22 @@ theorem add_sub_exact (maxW w : Nat) (a b : Int) (ha : fits w a = true) (hb : fi
   refine ⟨?_, ?_, ?_, ?_, ?_⟩
   · intro c h; unfold addDec at h; split at h <;> simp_all
   · intro c h; unfold subDec at h; split at h <;> simp_all
-  · intro hw
-    have hmin : min (w + 1) maxW = w + 1 := Nat.min_eq_left hw
-    simp [addDec, subDec, fits, hmin, hadd, hsub]
+  · intro h18 hw
+    have hres : resWidth maxW w = w + 1 := by
+      unfold resWidth; rw [if_neg h18]; exact Nat.min_eq_left hw
+    simp [addDec, subDec, fits, hres, hadd, hsub]
   · intro h
     unfold addDec fits at h
     split at h
     · cases h
     · rename_i hf
-      have hge : 10 ^ min (w + 1) maxW ≤ (a + b).natAbs := by simpa using hf
-      rcases Nat.le_total (w + 1) maxW with hle | hle
-      · rw [Nat.min_eq_left hle] at hge; omega
-      · rw [Nat.min_eq_right hle] at hge; exact hge
+      simpa using hf
   · intro h
     unfold subDec fits at h
     split at h
     · cases h
     · rename_i hf
-      have hge : 10 ^ min (w + 1) maxW ≤ (a - b).natAbs := by simpa using hf
-      rcases Nat.le_total (w + 1) maxW with hle | hle
-      · rw [Nat.min_eq_left hle] at hge; omega
-      · rw [Nat.min_eq_right hle] at hge; exact hge
+      simpa using hf
 
 /-! ### non-vacuity -/
 example : Accepted (some 28) (some 10) initial := by decide +kernel
@@ -292,5 +288,6 @@ example : load 28 10 ⟨-12345678915, 11⟩ = some (-1234567892) := by decide +k
 example : load 10 6 ⟨99999999995, 7⟩ = none := by decide +kernel                  -- 9999.9999995 needs 11 digits
 example : load 10 6 ⟨99999999994, 7⟩ = some 9999999999 := by decide +kernel
 example : addDec 38 10 9999999999 9999999999 = some 19999999998 := by decide +kernel
+example : addDec 38 18 999999999999999999 999999999999999999 = none := by decide +kernel   -- no promotion past 18 digits
 
 end VtlModel.C30
